@@ -4,6 +4,22 @@
 C11_HARN = ["VerifC11Arith", "VerifC11Mod", "VerifC11Rel", "VerifC11Logic", "VerifC11Shift", "VerifC11Unary", "VerifC11Eq", "VerifC11IntFloatEq", "VerifC11Index"]
 
 CHECKS = {
+    "C05": {
+        "runs": [
+            {"harness": ["internal/vsess.VerifC05Expr"], "pkgs": ["./internal/vsess"], "fuel": 3000000,
+             "params_quick": {"budget": 1, "nops": 4, "leaves": 3, "fam": 0, "polykinds": 3}, "params_thorough": {"budget": 2, "nops": 5, "leaves": 4, "fam": 0},
+             "covers": {"VerifC05Expr": ["value", "runtime-error"]}},
+            {"harness": ["internal/vsess.VerifC05Expr"], "pkgs": ["./internal/vsess"], "fuel": 3000000,
+             "params_quick": {"budget": 1, "chain": 2, "nops": 4, "leaves": 3, "fam_lo": 1, "ctx3": 1, "polykinds": 3},
+             "params_thorough": {"budget": 1, "chain": 3, "nops": 6, "leaves": 4, "fam_lo": 1, "nctx": 16},
+             "covers": {"VerifC05Expr": ["value", "runtime-error"]}},
+            {"harness": ["internal/vsess.VerifC05Stmt", "internal/vsess.VerifC05Lists"], "pkgs": ["./internal/vsess"], "fuel": 3000000,
+             "params_quick": {"sdepth": 1, "polykinds": 3}, "params_thorough": {"sdepth": 2},
+             "covers": {"VerifC05Stmt": ["value", "runtime-error"], "VerifC05Lists": ["done"]}},
+        ],
+        "bound_text": "expression families: trees with <= budget operator/wrapper nodes (quick 1, thorough 2) over 13 non-operator positions, operator-in-position-in-operator sandwiches, operator chains (quick 2, thorough 3), e-op-e, if/else; 16 statement embeddings (quick: all 16 for small trees, used/discarded/function-tail for the other families); operators: one representative per VM dispatch group; operand kinds nil/int/float/bool symbolic, strings/arrays of length <= 2",
+        "assumptions": ["generated trees are exactly trees the parser can produce (statement forms only in statement positions)"],
+    },
     "C11": {
         "runs": [
             {"harness": ["types/value." + h for h in C11_HARN], "pkgs": ["./types/value"], "cross": 7, "params_quick": {"maxlen": 1}, "params_thorough": {"maxlen": 2},
@@ -66,6 +82,7 @@ CHECKS = {
 }
 
 LEVEL_TEXT = {
+    "C05": "The whole pipeline (symbol rewriting, bytecode compiler with its context flags and temp-register strategy, VM, value algebra, memory) is executed symbolically from SSA on generated syntax trees. Tree shapes and embeddings are enumerated by forking; operand kinds (nil/int/float/bool) and all literal payloads are solver variables, so e.g. a zero divisor, an index equal to the length or a NaN is a model the solver must exclude. Any feasible Go panic path, non-terminating run or undocumented error class is a violation, replayed natively.",
     "C18": "Every method of memory.Type is executed symbolically from SSA along solver-chosen operation sequences and call/fork scenarios whose sizes cross the 128-cell allocation boundaries, beside a capacity-free reference model; after every operation every variable of every live context is read back and must equal the last value written (values are symbolic, so equality is a solver verdict, and every Go panic path such as an index out of range must be infeasible). Sizes are enumerated from a boundary set, not symbolic: the engine has no symbolic-length slices.",
     "C13": "TLexer and every combinator are executed symbolically from SSA. For the lexer the cursor and saved cursors of the pre-state are solver variables constrained only by the representation invariant, so one-step results cover histories of any length; combinators run over the real TLexer with sub-parser outcomes as solver-chosen functions of position and are compared with an ordered-choice reference recogniser (accept/reject, results, final position, snapshot depth).",
     "C11": "Every method of the value algebra is executed symbolically from its SSA with operand kinds forked and all 64-bit payloads (ints, float bit patterns incl. NaN/inf/-0, string bytes) left symbolic; each documented law is an assertion the solver must prove unsat-negated on every path, and every Go panic path must be infeasible. Bounded only in container length/nesting.",
